@@ -63,7 +63,8 @@ def spread2d(obs, msk=None, nodata=0, frc=None, latlon=False, transform=IDENTITY
     nrow, ncol = obs.shape
     xres, yres, north = transform[0], abs(transform[4]), transform[5]
     if latlon:
-        lats = north + (np.arange(nrow) + 0.5) * yres
+        # row centre latitudes follow the sign of the y-resolution (north-up: negative)
+        lats = north + (np.arange(nrow) + 0.5) * transform[4]
         dys = degree_metres_y(lats) * yres
         dxs = degree_metres_x(lats) * xres
     else:
